@@ -187,6 +187,16 @@ func fmtUnits(p *nasConvert.ProtocolConfigurationOptions) string {
 }
 
 func randV4(e *emitter) net.IP {
+	// one address in four comes from a special-purpose block (RFC 6890): a conversion is a conversion for every address
+	if e.rng.Intn(4) == 0 {
+		pre := [][]byte{{0, 0}, {10, 0}, {100, 64}, {127, 0}, {169, 254}, {172, 16}, {192, 0}, {192, 168}, {198, 18}, {224, 0}, {240, 0}, {255, 255},
+			{169, 253}, {169, 255}}[e.rng.Intn(14)]
+		tail := e.bytes(2)
+		if e.rng.Intn(3) == 0 {
+			tail = [][]byte{{0, 0}, {0, 1}, {255, 255}, {169, 254}}[e.rng.Intn(4)]
+		}
+		return net.IP(append(append([]byte{}, pre...), tail...))
+	}
 	b := e.bytes(4)
 	switch e.rng.Intn(6) {
 	case 0:
